@@ -216,6 +216,7 @@ RULES = [
      lambda ctx: __import__("c10").r1(ctx, only=lambda s: any(s.fn == f or s.fn.startswith(f + "::") for f in
                  ("util::has_extension", "searcher::Searcher::is_zip_archive", "fileinfo::to_file_info")), rule_prefix="archive-")),
     ("C19-R5", "a member's modification time is the stored wall-clock time, not resolved through the time zone", lambda ctx: r5(ctx)),
+    ("X-CONFIG", "a setting read from both configurations is the user's value when present, the built-in default otherwise [shared]", lambda ctx: __import__("extra2").user_config_wins(ctx)),
 ]
 
 EXPLANATION = (
